@@ -206,8 +206,19 @@ impl SendRateComp {
         // for a "new loss event or an increase in the loss event rate p"
         let loss_increase = loss_rate > self.prev_loss_rate;
 
+        // The first feedback carries no receive rate measurement (there is no earlier feedback to
+        // measure from, so it is reported as zero): it neither enters the receive rate set nor
+        // limits the send rate. Taken at face value, a first feedback that indicates loss would
+        // pin the send rate to its minimum.
+        let first_feedback = match self.mode {
+            SendRateMode::SlowStart(ref state) => state.time_last_doubled_ms.is_none(),
+            _ => false,
+        };
+
         let recv_limit =
-            if rate_limited {
+            if first_feedback {
+                u32::MAX
+            } else if rate_limited {
                 // If rate limited during the interval, the interval was not entirely data-limited
                 let max_val = self.recv_rate_set.rate_limited_update(now_ms, recv_rate, rtt_ms);
                 max_val.saturating_mul(2)
